@@ -3,6 +3,7 @@ import SqlgrepModel.Lemmas.ParseWithinStmt
 import SqlgrepModel.Lemmas.ParseJson
 import SqlgrepModel.Lemmas.Lower
 import SqlgrepModel.Lemmas.ParseTreeLoc
+import SqlgrepModel.Lemmas.LowerTables
 /-
 C14 — parsing is total: any text yields a statement or a located error (parser part).
 
@@ -234,6 +235,31 @@ theorem conversion_error_location_is_a_token_location (T : PrecTables) (regexVal
     (toks : List PTok) (t : POp) (e : CErr) (h : parseTokens T toks = .tree t)
     (he : lowerStatement regexValid t = .err e) : e.loc ∈ toks.map (·.loc) :=
   lowerStatement_errAt regexValid t (tree_locations_are_token_locations T toks t h) e he
+
+open Lower Lower.Tables in
+/-- **The lowering's name tables are the running code's** (table obligation, re-checked on every run against
+`Generated/LowerTables.lean`, which `harness tables` derives from `completion_words()`, one `parsing::parse` per name,
+spelling and argument list, `ValueType::from_str` and one table definition per candidate word): the functions with
+the function each name denotes, the aggregates, "every completion word is one or the other", the answer (function /
+aggregate / which error) for every name in lower and upper case on seven argument lists — i.e. the accepted arities
+behind `wrong_aggregate_arity_is_error` —, near-miss names, type words, pattern-mode words and modifier words. A new,
+renamed or removed name, a changed arity or word in /repo breaks this theorem at build time. -/
+theorem lowering_tables_match_the_code :
+    sameSet Generated.lowerFunctions modelFunctions = true ∧
+    sameSet Generated.lowerAggregates modelAggregates = true ∧
+    sameSet Generated.lowerNames (modelFunctions.map (·.1) ++ modelAggregates) = true ∧
+    Generated.lowerProbes = Generated.lowerProbes.map (fun p => (p.1, (List.range 7).map (modelProbe p.1))) ∧
+    Generated.lowerUnknown = Generated.lowerUnknown.map (fun p => (p.1, modelProbe p.1 1)) ∧
+    Generated.typeWords = Generated.typeWords.map (fun p => (p.1, p.2.1, (VType.ofIdent p.1).map (arrayOf p.2.1))) ∧
+    Generated.regexModeWords = Generated.regexModeWords.map (fun p => (p.1, modelMode p.1)) ∧
+    Generated.modifierWords = Generated.modifierWords.map (fun p => (p.1, modelModifier p.1)) :=
+  ⟨functions_eq, aggregates_eq, names_eq, probes_eq, unknown_eq, type_words_eq, regex_mode_words_eq, modifier_words_eq⟩
+
+open Lower in
+/-- the README's `regex_matches` and the older `regexp_matches` are the same function -/
+theorem regex_matches_both_spellings :
+    functionOfName "regex_matches".toList = some .regexMatches ∧ functionOfName "regexp_matches".toList = some .regexMatches := by
+  decide
 
 /-! Number out of range is not a parser fact: `99999999999999999999` is rejected by the tokenizer (`IntConvertError`,
 `Props/C14Lex.lean`; oracle: the `reject` texts of `harness/src/c14.rs`). An invalid regular expression is a
